@@ -3,6 +3,7 @@ package main
 import (
 	"fmt"
 	"sort"
+	"strconv"
 	"strings"
 )
 
@@ -353,9 +354,80 @@ func checkJoin(g *Group, a Asg) bool {
 	return true
 }
 
+// ---- rejoin: a member that missed generations comes back with the user data of its last sync.  The members of the
+// newest generation form the previous plan; the others (older generation, or no user data) are like joiners.
+
+func genNum(m *Member) (int, bool) {
+	if strings.HasPrefix(m.UD.Kind, "g") {
+		n, err := strconv.Atoi(m.UD.Kind[1:])
+		return n, err == nil
+	}
+	return 0, false
+}
+
+// latestClean: only V1 data or none, at least one generation, and the claims of the newest generation are pairwise
+// disjoint and duplicate free.  Returns that generation.
+func (g *Group) latestClean() (int, bool) {
+	max, any := 0, false
+	for i := range g.Members {
+		m := &g.Members[i]
+		if m.UD.Kind == "-" {
+			continue
+		}
+		n, ok := genNum(m)
+		if !ok {
+			return 0, false
+		}
+		if !any || n > max {
+			max, any = n, true
+		}
+	}
+	if !any {
+		return 0, false
+	}
+	seen := map[TP]bool{}
+	for i := range g.Members {
+		m := &g.Members[i]
+		if n, ok := genNum(m); ok && n == max {
+			for _, p := range m.UD.Parts {
+				if seen[p] {
+					return 0, false
+				}
+				seen[p] = true
+			}
+		}
+	}
+	return max, true
+}
+
+// every partition claimed by a member of the newest generation stayed or went to a member that is not of the
+// newest generation (the rejoiner / a joiner)
+func checkRejoin(g *Group, a Asg, latest int) bool {
+	names := g.names()
+	for i := range g.Members {
+		m := &g.Members[i]
+		if n, ok := genNum(m); !ok || n != latest {
+			continue
+		}
+		for _, p := range m.UD.Parts {
+			o := ownerOf(a, names, p)
+			if o == m.Name {
+				continue
+			}
+			if o == "" {
+				return false
+			}
+			if n, ok := genNum(g.member(o)); ok && n == latest {
+				return false
+			}
+		}
+	}
+	return true
+}
+
 // verdicts: all predicate values for one (strategy, kind, input, plan) line
 func verdicts(strat, kind string, g *Group, a Asg) (string, map[string]string) {
-	v := map[string]string{"bal": "-", "rsz": "-", "rrd": "-", "same": "-", "leave": "-", "join": "-", "swap": "-"}
+	v := map[string]string{"rejoin": "-", "bal": "-", "rsz": "-", "rrd": "-", "same": "-", "leave": "-", "join": "-", "swap": "-"}
 	why, _ := checkValid(g, a)
 	v["valid"] = b01(why == "")
 	switch strat {
@@ -383,7 +455,12 @@ func verdicts(strat, kind string, g *Group, a Asg) (string, map[string]string) {
 			}
 		}
 	}
-	s := fmt.Sprintf("valid=%s bal=%s rsz=%s rrd=%s same=%s leave=%s join=%s swap=%s",
-		v["valid"], v["bal"], v["rsz"], v["rrd"], v["same"], v["leave"], v["join"], v["swap"])
+	if strat == "sticky" && kind == "rejoin" && g.identicalSubs() {
+		if latest, ok := g.latestClean(); ok {
+			v["rejoin"] = b01(checkRejoin(g, a, latest))
+		}
+	}
+	s := fmt.Sprintf("valid=%s bal=%s rsz=%s rrd=%s same=%s leave=%s join=%s swap=%s rejoin=%s",
+		v["valid"], v["bal"], v["rsz"], v["rrd"], v["same"], v["leave"], v["join"], v["swap"], v["rejoin"])
 	return s, v
 }
